@@ -15,7 +15,7 @@ MCInit == Init /\ ncmd = 0
 Step ==
     \/ \E m \in Models : InitBegin(m) \/ Pop(m) \/ HB(m) \/ OpStart(m) \/ HE(m)
     \/ \E t \in Tasks : OpDone(t) \/ \E i \in 1..8 : Push(t, i)
-    \/ Quiesce
+    \/ Quiesce \/ AbortPanic
 
 MCNext ==
     \/ /\ DInit /\ UNCHANGED ncmd
